@@ -164,6 +164,47 @@ CHAN_MA = """	type pair struct {
 mut("c15-mapasync-result-channel", [(L, LMA_FULL, CHAN_MA)], [], ["C15", "C09"], note="PRESERVING: results sent over an unbuffered channel and assembled by the caller")
 mut("c15-mapasync-result-channel-closed-early", [(L, LMA_FULL, CHAN_MA.replace("	result := NewListOf(nil, n)\n	for k := 0; k < n; k++ {\n		p := <-results\n		result.Replace(p.i, p.v)\n	}", "	result := NewListOf(nil, n)\n	for k := 0; k < n; k++ {\n		p := <-results\n		result.Replace(p.i, p.v)\n		if k == 5 {\n			break\n		}\n	}"))], ["C15"], note="caller stops collecting after six results: later elements stay nil and workers block forever")
 
+SEL_FE = """	var wg sync.WaitGroup
+	step := func(group *sync.WaitGroup, i int, x any) {
+		function(i, x)
+		group.Done()
+	}
+	wg.Add(ego.Ego().Count())
+	for i, item := range ego.val {
+		go step(&wg, i, item.getVal())
+	}
+	done := make(chan struct{})
+	go func() {
+		wg.Wait()
+		close(done)
+	}()
+	select {
+	case <-done:
+	}
+	return ego.Ego()"""
+mut("c15-foreach-select-on-done", [(L, LFE_FULL, SEL_FE)], [], ["C15"], note="PRESERVING: waits through a select on a done channel closed by a watcher goroutine")
+mut("c15-foreach-select-with-timeout", [(L, LFE_FULL, SEL_FE.replace("	case <-done:\n	}", "	case <-done:\n	case <-time.After(50 * time.Millisecond):\n	}")), (L, '	"sync"\n)', '	"sync"\n	"time"\n)')], ["C15"], note="gives up waiting after 50 ms: returns before slow callbacks have finished")
+mut("c15-foreach-poll-with-sleep", [(L, LFE_FULL, """	var mu sync.Mutex
+	left := ego.Ego().Count()
+	for i, item := range ego.val {
+		go func(i int, x any) {
+			function(i, x)
+			mu.Lock()
+			left--
+			mu.Unlock()
+		}(i, item.getVal())
+	}
+	for {
+		mu.Lock()
+		n := left
+		mu.Unlock()
+		if n == 0 {
+			break
+		}
+		time.Sleep(time.Millisecond)
+	}
+	return ego.Ego()"""), (L, '	"sync"\n)', '	"sync"\n	"time"\n)')], [], ["C15"], note="PRESERVING: polls a mutex-protected counter, sleeping between polls")
+
 # ---------------------------------------------------------------- C04
 mut("c04-accept-eof-after-string", [(P, """	// No matching rule - error
 	return nil, 0, fmt.Errorf("not a valid JSON - unexpected end of input")
